@@ -614,11 +614,15 @@ class EvalMixin(object):
                     return z3.And(PyVal.is_pstr(x.e), z3.Select(cell.keys, PyVal.ps(x.e)))
                 return z3.BoolVal(False)
             if isinstance(cell, HList):
-                j = z3.Int(fresh_name("wit"))
-                r = z3.Bool(fresh_name("inlist"))
                 xe = x.e if x.kind == cell.ek else None
                 if xe is None:
                     raise OutOfSubset("in on list of other kind", node)
+                # one Skolem pair per (list value, element): the same question asked twice gets the same answer
+                cache = self.__dict__.setdefault("_inlist_cache", {})
+                ck = (cell.arr.sexpr(), cell.n.sexpr(), xe.sexpr())
+                if ck not in cache:
+                    cache[ck] = (z3.Int(fresh_name("wit")), z3.Bool(fresh_name("inlist")))
+                j, r = cache[ck]
                 # r <-> exists j: one direction by witness, the other by quantified fact
                 st.assume(z3.Implies(r, z3.And(0 <= j, j < cell.n, z3.Select(cell.arr, j) == xe)))
                 st.qf.append(QFact(z3.IntVal(0), cell.n, lambda i, r=r, cell=cell, xe=xe: z3.Implies(z3.Select(cell.arr, i) == xe, r), "in-list"))
